@@ -49,7 +49,7 @@ ReadOnlyOps == {"Clone", "CloneSeqBag", "Unalign", "Sample", "SampleSeqBag", "Su
                 "InverseCoordinates", "InversePositions", "RefCoordinates", "RefSites", "Split", "Transpose",
                 "MaxCharStats", "Consensus", "CharStats", "CharStatsSite", "CharStatsSeq", "UniqueCharacters",
                 "Entropy", "NbVariableSites", "InformativeSites", "AvgAllelesPerSite", "Pssm", "CountDifferences",
-                "NumGapsUnique", "NumMutationsUnique", "NumMutRef", "ListMutRef", "CountProfile",
+                "NumGapsUnique", "NumMutationsUnique", "NumMutRef", "ListMutRef", "CountProfile", "SiteConservation", "AlphabetInfo",
                 "BuildBootstrap", "RandSubAlign", "Rarefy", "DetectAlphabet", "Identical", "Query", "New", "CodonAlign"}
 
 Ret(r) == Res(FALSE, r.o, <<>>, r.ret, TRUE)
@@ -141,6 +141,8 @@ Step(h, op, recv, a) ==
          IF NumMutErr(o.al, o.rows[a.i + 1].s, o.rows[a.refi + 1].s) THEN Fail(o)
          ELSE Q(o, [muts |-> ListMut(o.al, o.rows[a.i + 1].s, o.rows[a.refi + 1].s)])
     [] op = "CountProfile" -> Q(o, [prof |-> ProfileCounts(o)])
+    [] op = "SiteConservation" -> IF SiteConservationErr(o, a.site) THEN Fail(o) ELSE Q(o, [v |-> SiteConservation(o, a.site)])
+    [] op = "AlphabetInfo" -> Q(o, [chars |-> AlphaChars(o), idx |-> [k \in 1..Len(a.chars) |-> AlphabetIndex(o, a.chars[k])]])
     [] op = "Identical" -> Q(o, [v |-> /\ Len(o.rows) = Len(h[a.other].rows)
                                        /\ \A r \in 1..Len(o.rows) : HasName(h[a.other], o.rows[r].n)
                                              /\ RowOfName(h[a.other], o.rows[r].n).s = o.rows[r].s])
@@ -160,7 +162,8 @@ RetOK(op, a, exp, obs) ==
          /\ (Len(exp.kept) = 0 \/ (obs.first = exp.first /\ obs.last = exp.last))
     [] op \in {"RemoveGapSeqs", "RemoveCharacterSeqs"} -> obs.n = exp.n
     [] op \in {"CharStats", "CharStatsSite", "CharStatsSeq"} -> ObsMap(obs.m) = exp.m /\ Len(obs.m) = Cardinality(exp.m)
-    [] op \in {"UniqueCharacters", "NbVariableSites", "DetectAlphabet", "Identical", "NumMutRef"} -> obs.v = exp.v
+    [] op \in {"UniqueCharacters", "NbVariableSites", "DetectAlphabet", "Identical", "NumMutRef", "SiteConservation"} -> obs.v = exp.v
+    [] op = "AlphabetInfo" -> obs.chars = exp.chars /\ obs.idx = exp.idx
     [] op = "InformativeSites" -> obs.v = exp.v
     [] op \in {"Entropy", "AvgAllelesPerSite"} -> FClose(FParse(obs.f), exp.f, FParse("1e-9"), FParse("1e-12"))
     [] op = "Pssm" ->
